@@ -485,7 +485,9 @@ type Contract struct {
 	Trusted    bool   // assumed contract (body not verified)
 	TrustWhy   string
 	Arith      string // "" (math) or "wrap64"
+	Float      string // "" (exact reals) or "xreal" (extended reals with NaN/Inf)
 	Asserts    []*Clause // assert_at
+	Hints      []*Clause // proved at every return with the locals in scope, then assumed for the postconditions (not visible to callers)
 	Covers     []*Clause
 	Line       int
 	File       string
@@ -544,8 +546,8 @@ type SpecFile struct {
 var clauseKeywords = map[string]bool{
 	"func": true, "pure": true, "opaque": true, "props": true, "requires": true, "ensures": true, "modifies": true,
 	"loop": true, "invariant": true, "decreases": true, "assert_at": true, "table": true, "axiom": true,
-	"lemma": true, "inline": true, "arith": true, "trusted": true, "cover": true, "note": true,
-	"maypanic": true, "noauto": true, "params": true, "allowexit": true, "extern": true,
+	"lemma": true, "inline": true, "hint": true, "arith": true, "trusted": true, "cover": true, "note": true,
+	"maypanic": true, "noauto": true, "float": true, "params": true, "allowexit": true, "extern": true,
 }
 
 // parseTags parses an optional "[C01,C02]" or "[name]" prefix
@@ -684,6 +686,14 @@ func ParseSpecFile(path, pkg, content string) (*SpecFile, error) {
 			} else {
 				cur.Ensures = append(cur.Ensures, c)
 			}
+		case "hint":
+			c, err := mkClause(kw, rest, l.line)
+			if err != nil {
+				return nil, err
+			}
+			if cur != nil {
+				cur.Hints = append(cur.Hints, c)
+			}
 		case "cover":
 			c, err := mkClause(kw, rest, l.line)
 			if err != nil {
@@ -767,6 +777,10 @@ func ParseSpecFile(path, pkg, content string) (*SpecFile, error) {
 		case "arith":
 			if cur != nil {
 				cur.Arith = rest
+			}
+		case "float":
+			if cur != nil {
+				cur.Float = rest
 			}
 		case "maypanic":
 			if cur != nil {
